@@ -23,7 +23,8 @@ RULE = ("per class a bounded grammar enumerated completely; non-trivial = distin
 ASSUMPTIONS = ["native/foreign classification comes from the generator, never from the outcome",
                "data() is compared without identifiers (uuid=False)"]
 REQUIRED = ["native_fixpoint", "foreign_converged", "normalised_input", "acl_level", "config_level",
-            "remark_tricky", "setter_fixpoint"]
+            "remark_tricky", "setter_fixpoint",
+            "name_as_data_ok"]
 
 
 def describe(tier, seed):
@@ -329,7 +330,61 @@ def _addrgroup(unit, ctx):
                     o = _generic("AddrGroup", text, kw, True, ctx, meaning=(want, read))
                     if o is not None and indent:
                         _config_level("addrgroups", o.line, dict(platform=plat, indent=indent), ctx)
+    if not numbered:
+        _names_given_as_data(plat, ctx)
     ctx.sample("addrgroup", dict(platform=plat, numbered=numbered))
+
+
+def _names_given_as_data(plat, ctx):
+    """Names that reach an object as DATA (name= keyword, the name setter, a header with extra
+    blanks inside a configuration) survive in normalised form: the rendered text is a fixed point
+    that carries exactly that name."""
+    import cisco_acl
+    from cisco_acl import Acl, AddrGroup
+
+    ghead = "object-group network" if plat == "ios" else "object-group ip address"
+    ahead = "ip access-list extended" if plat == "ios" else "ip access-list"
+    member, entry = "host 10.0.0.1", "permit ip any any"
+    for raw in ("X", " X", "X ", " X ", "X\n", "\tX", "X  ", "  G-1_x.y  "):
+        name = raw.strip()
+        builds = [
+            ("AddrGroup(name=)", lambda: AddrGroup(name=raw, items=[member], platform=plat)),
+            ("AddrGroup.name=", lambda: _set(AddrGroup(f"{ghead} Q\n {member}", platform=plat), "name", raw)),
+            ("Acl(name=)", lambda: Acl(name=raw, items=[entry], platform=plat)),
+            ("Acl.name=", lambda: _set(Acl(f"{ahead} Q\n {entry}", platform=plat), "name", raw)),
+        ]
+        if "\n" not in raw:
+            builds += [
+                ("addrgroups(header)", lambda: cisco_acl.addrgroups(f"{ghead} {raw}\n {member}\n", platform=plat)[0]),
+                ("acls(header)", lambda: cisco_acl.acls(f"{ahead} {raw}\n {entry}\n", platform=plat)[0]),
+                ("AddrGroup(header)", lambda: AddrGroup(f"{ghead} {raw}\n {member}", platform=plat)),
+                ("Acl(header)", lambda: Acl(f"{ahead} {raw}\n {entry}", platform=plat)),
+            ]
+        for label, build in builds:
+            ctx.ev()
+            case = dict(kind="generic", cls=label, input=raw, kwargs=dict(platform=plat), native=True)
+            try:
+                obj = build()
+            except (ValueError, TypeError, IndexError):
+                ctx.out("padded_name_refused")
+                continue
+            l1 = obj.line
+            try:
+                again = type(obj)(l1, platform=plat)
+            except (ValueError, TypeError) as ex:
+                ctx.viol(f"{label}:own_rendering_rejected", dict(case, l1=l1), repr(ex), "accepted")
+                continue
+            if obj.name != name or again.name != name or again.line != l1 or \
+                    l1.split("\n")[0].split(" ")[-1] != name:
+                ctx.viol(f"{label}:name_not_normalised", dict(case, l1=l1),
+                         dict(name=obj.name, reparsed=again.name, header=l1.split("\n")[0]), name)
+            else:
+                ctx.out("name_as_data_ok")
+
+
+def _set(obj, attr, value):
+    setattr(obj, attr, value)
+    return obj
 
 
 def _config_level(func, text, kwargs, ctx):
